@@ -29,3 +29,20 @@ def run_replay(prop, crate_dir_name, args, repo_root=None, extra_files=None, tim
     if rc == 101 and "could not compile" in err:
         raise Undecided("replay crate %s does not compile against the tree: %s" % (crate_dir_name, err[-1200:].replace("\n", " | ")))
     return rc, out, err, secs
+
+
+def bounded_stand_in(rep, prop, crate, args, name, what, bound, functions, replay_hint):
+    """Run a native exhaustive small-domain enumerator as a BOUNDED stand-in for functions that neither verifier
+    can reach (stated in `functions`).  It is recorded under coverage.bounded_checks with backend
+    'native exhaustive enumeration', never counted as proved.  A failing input is a confirmed violation."""
+    rc, out, err, secs = run_replay(prop, crate, args)
+    ok = rc == 0
+    if rc not in (0, 1):
+        rep.undecided.append("%s: enumerator did not run (rc=%s): %s" % (name, rc, (err or out)[-300:].replace("\n", " | ")))
+        return
+    rec = rep.obligation("native:" + name, "native exhaustive enumeration (rustc, real crates)", ok, seconds=secs,
+                         detail=what + " | functions: " + functions + " | " + (out.strip().splitlines()[-1][:200] if out.strip() else ""),
+                         complete=False, bound=bound)
+    if not ok:
+        rep.violation("native:" + name, "bounded stand-in failed\n" + out[-1500:], witness=out.strip().splitlines()[0] if out.strip() else None,
+                      replay_text=replay_hint, confirmed=True)
